@@ -9,3 +9,5 @@ import WcModel.Properties.C13
 #print axioms WcModel.C13.single
 #print axioms WcModel.C13.ignorecase_collapses
 #print axioms WcModel.C13.shortcut_duplicates
+#print axioms WcModel.C13.shortcut_sound_of_injective
+#print axioms WcModel.C13.shortcut_case_variants
